@@ -100,6 +100,17 @@ def sweeps(tier):
     return [('unit-ids-x-hosted-shapes-x-flags (all 256 ids in thorough)', cases, tier == 'thorough')]
 
 
+def _fingerprint(m):
+    """state of a unit model (defaulted tables: only the cells that differ from the default)"""
+    out = {}
+    for k, v in m.tab.items():
+        if hasattr(v, 'w'):
+            out[k] = dict((a, x) for a, x in v.w.items() if x not in (0, False))
+        else:
+            out[k] = dict(v)
+    return out
+
+
 def run_case(case):
     from pymodbus.datastore.context import ModbusSlaveContext
     pm.reset_globals()
@@ -135,6 +146,7 @@ def run_case(case):
     if len(set(sizes[:len(units)])) > 1:
         labels.append('units-differ-in-size')
     exp_sets = dict((u, 0) for u in units)
+    exp_changes = dict((u, 0) for u in units)      # writes that change the unit's state (a write of the value already there may be skipped)
     frames = []
     expect = []      # per step: list of acceptable response PDUs (bytes) or None for silence; 'gw' marks optional gateway
     wrote_multi = False
@@ -163,9 +175,12 @@ def run_case(case):
         for u in targets:
             outcomes, primary = models[u].classify(areq)
             if primary == 'normal':
+                before_ = _fingerprint(models[u]) if is_write else None
                 k, f = models[u].apply(areq)
                 if is_write:
                     exp_sets[u] += 1
+                    if _fingerprint(models[u]) != before_:
+                        exp_changes[u] += 1
                 want = (k, f)
             else:
                 want = ('exc', {'fc': pdu[0], 'code': primary})
@@ -195,7 +210,7 @@ def run_case(case):
                 fe, framing, hosted if not single else 'single', bcast, u, c04._diff(real_d, model_d)), _kf(case)))
             break
         # "exactly once" is stated for broadcast writes; for unicast writes only "at least the model's writes" is required
-        if (slave.set_calls != exp_sets[u]) if only_broadcast_writes else (slave.set_calls < exp_sets[u]):
+        if (slave.set_calls > exp_sets[u] or slave.set_calls < exp_changes[u]) if only_broadcast_writes else (slave.set_calls < exp_changes[u]):
             discs.append(Disc('set-count', '%s/%s: unit %d saw %d setValues calls, model expects %d' % (fe, framing, u, slave.set_calls, exp_sets[u]), _kf(case)))
             break
     # ---- responses
